@@ -161,7 +161,7 @@ func (c *Ctx) exhaustiveHistories(n int, uris []string, contents []string) [][]P
 
 func c08(c *Ctx) {
 	c.Rep.TieObs = []string{"O-proxy: the downstream call log (method, URI, version, language id, text payload) of the real proxy.Server driven by a scripted downstream"}
-	c.Rep.Rule = "histories of didOpen / didChange(one or two full-text content changes) / didSave / didClose over two template URIs and one plain .go URI with buffer contents ranging over valid, invalid, half-typed and empty templates: exhaustive up to a length bound and random beyond; oracle after every prefix: downstream holds, under the generated URI and language go, exactly the real compilation of the mirrored buffer, with the editor's version; every text payload is generated code; no template URI downstream; close closes; Hover probes between the edits (including edits that leave the generated code byte-identical but move the template positions) are translated with the position map of the current buffer; distinct = distinct history; non-trivial = history with at least one change after an open"
+	c.Rep.Rule = "histories of didOpen / didChange(one or two full-text content changes) / didSave (with and, in a part of the histories, without the text) / didClose over two template URIs and one plain .go URI with buffer contents ranging over valid, invalid, half-typed and empty templates: exhaustive up to a length bound and random beyond; oracle after every prefix: downstream holds, under the generated URI and language go, exactly the real compilation of the mirrored buffer, with the editor's version; every text payload is generated code; no template URI downstream; close closes; Hover probes between the edits (including edits that leave the generated code byte-identical but move the template positions) are translated with the position map of the current buffer; distinct = distinct history; non-trivial = history with at least one change after an open"
 	uris := []string{"file:///w/a.goht", "file:///w/sub/b.goht", "file:///w/c.go"}
 	var hists [][]POp
 	small := []string{bufferContents[0], bufferContents[6], bufferContents[3], bufferContents[5]} // valid, same code with another map, invalid, empty
@@ -172,9 +172,21 @@ func c08(c *Ctx) {
 	for i := 0; i < c.N(150, 6000); i++ {
 		hists = append(hists, c.genHistory(4+c.R.Intn(c.N(12, 30)), uris))
 	}
+	// save notifications WITHOUT the text (a client that does not honour includeText): the proxy model has no
+	// such operation, so these histories are judged by the oracle only and kept out of the tie
+	nTied := len(hists)
+	for i := 0; i < c.N(40, 1500); i++ {
+		h := c.genHistory(4+c.R.Intn(c.N(10, 20)), uris)
+		for k := range h {
+			if h[k].Op == "save" && c.R.Intn(2) == 0 {
+				h[k].Nil = true
+			}
+		}
+		hists = append(hists, h)
+	}
 	real := c.composeReal(bufferContents)
 	logs := make([][][]PEvent, len(hists))
-	defer func() { c.Rep.TieCases = 0; c.tieProxy(hists, logs) }()
+	defer func() { c.Rep.TieCases = 0; c.tieProxy(hists[:nTied], logs[:nTied]) }()
 	for hi, h := range hists {
 		log, err := c.runProxy(h)
 		if err == nil {
